@@ -306,6 +306,41 @@ LQ_F2 = [["name", nq_lit("")], ["name", NONE], ["name", nq_lit("ab")], ["tuple",
          ["entry", ["not", ["any", ["fn", "lt2"]]]]]
 
 
+# attribute values of the UL universes: plain ones and UNHASHABLE ones (from_dict keeps nested lists and the
+# non-dict members of a list as list / dict valued attributes); every tuple of <= 3 of them is a label, so a
+# matching attribute stands before, between and after unhashable ones
+UNHASH_VALUES = ["x", 1, ["x"], {"k": 1}]
+
+
+def unhash_alts():
+    return [["lit", "x"], ["lit", 1], ["lit", "Y"], ["lit", ["x"]], ["lit", {"k": 1}], ["fn", "str_x"],
+            ["bool", P("eq", "x")], ["fn", "lt2"], ["bool", P("lt", 2)], ["bool", ["not", P("eq", "x")]]]
+
+
+def lq_unhash(tier):
+    """UL: one node, every attribute tuple of <= 3 values over UNHASH_VALUES x name / (name, q) / (name, q0, q1) over
+    all ordered pairs of 10 alternatives (plain literals, list / dict literals, predicates, raw callables) /
+    (name, q0, q1, q2) over all ordered triples of the first 6 / any_ / all_ and their negations."""
+    alts = unhash_alts()
+    sub = alts[:6]
+    nqs = [nq_lit("a"), NONE]
+    out = [["name", nq] for nq in nqs]
+    out += [["tuple", nq, a] for nq in nqs for a in alts]
+    out += [["tuple", nq, a1, a2] for nq in nqs for a1 in alts for a2 in alts]
+    out += [["tuple", nq, a1, a2, a3] for nq in nqs for a1 in sub for a2 in sub for a3 in sub]
+    base = [[k, a] for k in ("any", "all") for a in alts]
+    out += [["entry", e] for e in base] + [["entry", ["not", e]] for e in base]
+    return out
+
+
+def lq_unhash2(tier):
+    return [["name", nq_lit("a")], ["name", NONE], ["tuple", NONE, ["lit", "x"], ["lit", 1]],
+            ["tuple", nq_lit("a"), ["lit", "Y"], ["lit", "x"]], ["tuple", NONE, ["lit", ["x"]], ["lit", 1]],
+            ["tuple", NONE, ["fn", "str_x"], ["lit", 1]], ["tuple", NONE, ["lit", "x"]],
+            ["tuple", NONE, ["lit", 1], ["bool", P("lt", 2)], ["lit", {"k": 1}]],
+            ["entry", ["any", ["lit", "x"]]], ["entry", ["not", ["all", ["lit", 1]]]]]
+
+
 def lq_names(tier):
     ns = ["a", "b"] if tier == "quick" else ["a", "b", "A"]
     return [["name", nq_lit(n)] for n in ns] + [["name", NONE]]
@@ -324,6 +359,10 @@ def labels(kind):
         return [["a", []], ["a", ["x"]], ["b", [1]], ["b", [1, "x"]]]
     if kind == "falsy":
         return [[n, a] for n in ("", "ab") for a in ([], [0], [""], [None], ["x", 1], [0, "x", "Y"])]
+    if kind == "unhash3":
+        return [["a", list(t)] for n in (0, 1, 2, 3) for t in itertools.product(UNHASH_VALUES, repeat=n)]
+    if kind == "unhash2":
+        return [["a", list(t)] for n in (0, 1, 2) for t in itertools.product(UNHASH_VALUES, repeat=n)]
     if kind == "names2":
         return [["a", []], ["b", []]]
     if kind == "names3":
@@ -365,6 +404,9 @@ UNIVERSES = {
     "U2": {"nodes": (4, 4), "labels": "red", "lq": lq_red, "nlev": (1,),
            "lq2": lambda tier: lq_red(tier)[:3] if tier == "quick" else lq_red(tier), "multi": ((False, True), (True, True))},
     "U2B": {"nodes": (5, 5), "labels": "four", "lq": lambda tier: LQ_5, "nlev": (1, 2), "multi": ((False, True), (True, True))},
+    "UL": {"nodes": (1, 1), "labels": "unhash3", "lq": lq_unhash, "nlev": (1,), "multi": ()},
+    "UL2": {"nodes": (2, 2), "labels": "unhash2", "lq": lq_unhash2, "nlev": (1,),
+            "lq2": lambda tier: lq_unhash2(tier)[:5] if tier == "quick" else lq_unhash2(tier), "multi": ((False, True), (True, True))},
     "U3": {"nodes": (5, 5), "labels": None, "lq": lq_names, "nlev": (3,), "multi": ((False, False), (False, True), (True, False), (True, True))},
 }
 
@@ -542,6 +584,8 @@ def to_dict(forest):
             d[name] = sub
         elif len(attrs) == 1:
             d[name] = attrs[0]
+        elif any(isinstance(a, dict) for a in attrs):
+            return None             # from_dict turns a list with dict members into sections: not an attribute tuple
         else:
             d[name] = list(attrs)
         i = j + 1
@@ -974,6 +1018,9 @@ def check_case(case):
         return check_bool(case["pred"], case["value"])[0]
     if kind == "construct":
         return check_construct(case)
+    if kind == "reparent":
+        r = check_reparent(case)
+        return r[0] if isinstance(r, tuple) else r
     if kind == "select":
         ctx = build_ctx(case["forest"], case["build"], case.get("order"))
         if ctx is None:
@@ -1011,7 +1058,7 @@ def units(tier, seed):
     for lo in range(0, len(s1), rows):
         us.append({"u": "BOOL", "part": "rows", "lo": lo, "hi": min(len(s1), lo + rows)})
     # bulk tree universes
-    names = ["UA", "UF", "U1", "U2", "U3"] + (["UA3", "U2B"] if tier == "thorough" else [])
+    names = ["UA", "UF", "UL", "UL2", "U1", "U2", "U3"] + (["UA3", "U2B"] if tier == "thorough" else [])
     for name in names:
         u = UNIVERSES[name]
         nq = len(universe_queries(name, tier))
@@ -1041,6 +1088,12 @@ def units(tier, seed):
     n = 8 if tier == "quick" else 10
     for i in range(n):
         us.append({"u": "UI", "fs": [i, n]})
+    for build in ("entry", "from_dict"):
+        for i in range(2):
+            us.append({"u": "ULEP", "build": build, "fs": [i, 2]})
+    n = 4 if tier == "quick" else 12
+    for i in range(n):
+        us.append({"u": "UR", "fs": [i, n]})
     return us
 
 
@@ -1059,8 +1112,15 @@ _LABIDX = {}
 
 def _label_index(kind):
     if kind not in _LABIDX:
-        _LABIDX[kind] = dict(((l[0], tuple(l[1])), i) for i, l in enumerate(labels(kind)))
+        _LABIDX[kind] = dict((_labkey(l[0], tuple(l[1])), i) for i, l in enumerate(labels(kind)))
+        if len(_LABIDX[kind]) != len(labels(kind)):
+            raise RuntimeError("label alphabet %s has members that cannot be told apart" % kind)
     return _LABIDX[kind]
+
+
+def _labkey(name, attrs):
+    """Hashable key of a label; repr keeps 1 / "1" / [1] / True apart and works for list / dict valued attributes."""
+    return (name, repr(attrs))
 
 
 def run_construct_unit(unit, tier, res):
@@ -1148,7 +1208,7 @@ def run_bulk_unit(unit, tier, res):
     ctxs = []
     for f in enumx.shard(forests(lo, hi, kind), unit["fs"][0], unit["fs"][1]):
         c = build_ctx(f, "entry")
-        c.lab = [labidx[(c.tree.name[i], c.tree.attrs[i])] for i in range(c.tree.n)]
+        c.lab = [labidx[_labkey(c.tree.name[i], c.tree.attrs[i])] for i in range(c.tree.n)]
         m = None
         if u["multi"]:
             m = build_ctx(f, "multi")
@@ -1503,6 +1563,273 @@ def run_inter_unit(unit, tier, res):
     res.stat("cases_UI_roots_with_noncontiguous_documents", split)
 
 
+# unhashable attributes through the public entry points -----------------------------------------------------
+
+def ulep_levels():
+    sub = unhash_alts()[:6]
+    out = [["tuple", nq_lit("a"), a1, a2] for a1 in sub for a2 in sub]
+    out += [["tuple", NONE, ["lit", "Y"], ["lit", 1], ["lit", "x"]], ["tuple", NONE, ["lit", "x"]],
+            ["tuple", NONE, ["lit", ["x"]]], ["entry", ["any", ["lit", "x"]]], ["name", nq_lit("a")]]
+    return out
+
+
+def run_ulep_unit(unit, tier, res):
+    """ULEP: the UL documents (one node, <= 3 attributes, list / dict valued ones among them) built with Entry and
+    through from_dict, queried through select / find / []."""
+    build = unit["build"]
+    protos = []
+    for l in ulep_levels():
+        protos.append({"ep": "select", "levels": [l], "deep": False, "roots": False})
+        protos.append({"ep": "select", "levels": [l], "deep": True, "roots": True})
+        protos.append({"ep": "find", "levels": [l], "deep": True, "roots": False})
+        protos.append({"ep": "getitem", "levels": [l], "deep": False, "roots": False})
+    n = 0
+    for f in enumx.shard(forests(1, 1, "unhash3"), unit["fs"][0], unit["fs"][1]):
+        ctx = build_ctx(f, build)
+        if ctx is None:
+            continue
+        unhashable = any(isinstance(a, (list, dict)) for attrs in ctx.tree.attrs for a in attrs)
+        for proto in protos:
+            case = dict(proto)
+            case.update({"kind": "select", "forest": f, "build": build})
+            vio, exp = eval_case(ctx, case)
+            n += 1
+            if exp and unhashable:
+                res.nontrivial += 1         # a node that carries an unhashable attribute is a result
+            res.outcomes.add("ULEP:%s:%s:%d:%d" % (build[0], case["ep"], unhashable, min(len(exp), 2)))
+            for (cl, e, o, ft) in vio:
+                res.violation(cl, case, e, o, ft)
+                if cl == CLAUSE_T:
+                    ctx = build_ctx(f, build)
+            if n == 9:
+                res.samples.append(case)
+    res.evals += n
+    res.stat("cases_ULEP_%s" % build, n)
+
+
+# re-parenting histories ---------------------------------------------------------------------------------------
+
+CLAUSE_R = "roots:current-ultimate-ancestor-after-reparenting"
+RP_METHODS = ["wrap", "nest", "twice", "split", "flatten_top", "flatten_nested"]
+RP_FIRST = ["none", "select_roots", "find_roots", "find_a_roots", "root_attr", "result_roots"]
+NEW, NEW2 = -1, -2          # identities of the containers of the final document(s)
+
+
+def rp_judged():
+    a, b, none = ["name", nq_lit("a")], ["name", nq_lit("b")], ["name", NONE]
+    out = []
+    for levels in ([none], [a], [b], [none, none], [a, b]):
+        for deep in (False, True):
+            out.append({"ep": "select", "levels": levels, "deep": deep, "roots": True})
+    out.append({"ep": "find", "levels": [b], "deep": True, "roots": True})
+    out.append({"ep": "find", "levels": [none], "deep": True, "roots": False})
+    out.append({"ep": "root_attr"})
+    out.append({"ep": "result_roots"})
+    return out
+
+
+def rp_forests(tier):
+    """The document that is queried first and re-parented afterwards: every forest with <= 3 nodes (thorough: 4)
+    over the names a, b (no attributes)."""
+    return forests(1, 3 if tier == "quick" else 4, "names2")
+
+
+def _rp_first(doc, nodes, kind):
+    """The first step of the history, on the document as it was built; -> (observed, expected) as lists of labels."""
+    none = None
+    if kind == "none":
+        return [], []
+    if kind == "select_roots":
+        got = list(doc.select(none, roots=True).children)
+        exp = [doc] if doc.children else []
+    elif kind == "find_roots":
+        got = list(doc.find(none, roots=True).children)
+        exp = [doc] if nodes else []
+    elif kind == "find_a_roots":
+        got = list(doc.find("a", roots=True).children)
+        exp = [doc] if any(o.name == "a" for o in nodes) else []
+    elif kind == "root_attr":
+        got = [o.root for o in nodes]
+        exp = [doc] * len(nodes)
+    elif kind == "result_roots":
+        got = list(doc.find(none).roots.children)
+        exp = [doc] if nodes else []
+    else:
+        raise ValueError(kind)
+    lab = lambda xs: ["doc" if x is doc else "other:%s" % type(x).__name__ for x in xs]
+    return lab(got), lab(exp)
+
+
+def _preorder(tops):
+    out = []
+
+    def walk(o):
+        out.append(o)
+        for k in o.children:
+            walk(k)
+    for t in tops:
+        walk(t)
+    return out
+
+
+def check_reparent(case):
+    """History in one process: build a document, ask it for roots (step 1), move its nodes into another document
+    the way the combiners and the tree builders do (step 2: Entry(children=...) wrapping, nesting under a new
+    section, twice in a row, split over two documents, spliced in place of an include node by insights.core.flatten),
+    query the new document (step 3).  Step 3 is judged against the reference model applied to the FINAL tree, read
+    back from the real objects through children lists; the ultimate ancestor of a node is the container of the
+    document that holds it NOW."""
+    Q = _q()
+    out = []
+    method, first = case["method"], case["first"]
+    feats = {"reparent": method, "first": first, "parent_links_follow_children": True, "entry_point": case["ep"],
+             "caseless_predicate_on_nonstring": False, "deep_multilevel_match_path_order": False}
+
+    def mk(t):
+        return Q.Entry(name=t[0], attrs=tuple(t[1]), children=[mk(k) for k in t[2]])
+    old = Q.Entry(children=[mk(t) for t in case["forest"]])
+    old_nodes = _preorder(old.children)
+    got1, exp1 = _rp_first(old, old_nodes, first)
+    if got1 != exp1:
+        out.append((CLAUSE_Q, exp1, got1, dict(feats, step=1)))
+    names = {id(old): "old-doc"}
+    # step 2
+    new2 = None
+    if method == "wrap":
+        new = Q.Entry(children=old.children)
+    elif method == "nest":
+        new = Q.Entry(children=[Q.Entry(name="b", attrs=(1,)), Q.Entry(name="a", attrs=("x",), children=list(old.children))])
+    elif method == "twice":
+        mid = Q.Entry(children=list(old.children))
+        names[id(mid)] = "mid-doc"
+        got1, exp1 = _rp_first(mid, old_nodes, first)
+        if got1 != exp1:
+            out.append((CLAUSE_R, exp1, got1, dict(feats, step=2)))
+        new = Q.Entry(children=[Q.Entry(name="a", children=list(mid.children))])
+    elif method == "split":
+        if len(old.children) < 2:
+            return out
+        new = Q.Entry(children=list(old.children[:1]))
+        new2 = Q.Entry(children=list(old.children[1:]))
+    elif method in ("flatten_top", "flatten_nested"):
+        from insights.core import flatten
+        inc = Q.Entry(name="inc", attrs=("f",), children=[])
+        if method == "flatten_top":
+            main = Q.Entry(children=[Q.Entry(name="b", attrs=(1,)), inc])
+        else:
+            main = Q.Entry(children=[Q.Entry(name="a", children=[inc]), Q.Entry(name="b", attrs=(1,))])
+        names[id(main)] = "main-doc"
+        for node in main.find("inc").children:           # as ConfigCombiner.__init__ does for every include node
+            node.children.extend(old.children)
+        new = Q.Entry(children=flatten(main.children, "inc"))
+    else:
+        raise ValueError(method)
+    # the FINAL tree, read back through children lists
+    docs = [new] + ([new2] if new2 is not None else [])
+    tops = [t for d in docs for t in d.children]
+    objs = []
+    back = []
+    coherent = [True]
+
+    def walk(o, into, parent):
+        objs.append(o)
+        if o.parent is not parent:
+            coherent[0] = False
+        node = [o.name, list(o.attrs), []]
+        into.append(node)
+        for k in o.children:
+            walk(k, node[2], o)
+    for d in docs:
+        for t in d.children:
+            walk(t, back, d)
+    if len(set(id(o) for o in objs)) != len(objs):
+        return out                                        # a node listed twice: not a tree, not judged
+    feats["parent_links_follow_children"] = coherent[0]
+    tree = M.Tree(back)
+    idmap = dict((id(o), i) for i, o in enumerate(objs))
+    idmap[id(new)] = NEW
+    if new2 is not None:
+        idmap[id(new2)] = NEW2
+    rootid = {}
+    for d in docs:
+        for t in d.children:
+            rootid[idmap[id(t)]] = idmap[id(d)]
+
+    def ident(o):
+        return idmap.get(id(o), names.get(id(o), "?:%s" % type(o).__name__))
+    ctx = Ctx()
+    ctx.tree, ctx.forest, ctx.has_container = tree, back, True
+    X = new if new2 is None else Q.Result(children=docs)        # a Result queries the children of its children
+    start = list(tree.tops)
+
+    def by_parent_links(o):
+        p = o.parent
+        while p is not None and p.parent is not None:
+            p = p.parent
+        return ident(p)
+    follow = None
+    ep = case["ep"]
+    try:
+        if ep in ("select", "find"):
+            levels = case["levels"]
+            deep, roots = bool(case["deep"]), bool(case["roots"])
+            res = model_select(ctx, start, levels, deep, False)[0]
+            exp = M.dedup([rootid[tree.top[r]] for r in res]) if roots else res
+            qs = [mk_lq(l) for l in levels]
+            r = X.find(*qs, roots=roots) if ep == "find" else X.select(*qs, deep=deep, roots=roots)
+            got = [ident(o) for o in r.children]
+            if roots:
+                follow = M.dedup([by_parent_links(objs[i]) for i in res])
+        elif ep == "root_attr":
+            exp = [rootid[tree.top[i]] for i in range(tree.n)]
+            got = [ident(o.root) for o in objs]
+            follow = [by_parent_links(o) for o in objs]
+        elif ep == "result_roots":
+            exp = M.dedup([rootid[tree.top[i]] for i in range(tree.n)])
+            got = [ident(o) for o in X.find(None).roots.children]
+            follow = M.dedup([by_parent_links(o) for o in objs])
+        else:
+            raise ValueError(ep)
+    except Exception as ex:
+        if isinstance(ex, (ValueError, RuntimeError)):
+            raise
+        got = ["raised", type(ex).__name__]
+    if got != exp:
+        # narrow attribution: the spliced nodes still carry the parent links of the document they came from (the
+        # children lists say otherwise) and the answer is exactly what following those links gives
+        stale = (not coherent[0]) and follow is not None and got == follow
+        out.append((CLAUSE_R if (case.get("roots") or ep in ("root_attr", "result_roots")) else CLAUSE_Q, exp, got,
+                    dict(feats, step=3, roots_follow_parent_links_not_updated_by_flatten=bool(stale and method == "flatten_nested"))))
+    case_nt = first != "none" and bool(exp)
+    return out, case_nt, len(exp)
+
+
+def run_reparent_unit(unit, tier, res):
+    judged = rp_judged()
+    n = 0
+    for f in enumx.shard(rp_forests(tier), unit["fs"][0], unit["fs"][1]):
+        for method in RP_METHODS:
+            for first in RP_FIRST:
+                for j in judged:
+                    case = dict(j)
+                    case.update({"kind": "reparent", "forest": f, "method": method, "first": first})
+                    r = check_reparent(case)
+                    if not isinstance(r, tuple):
+                        res.stat("reparent_histories_not_applicable")
+                        continue
+                    vio, nt, nexp = r
+                    n += 1
+                    if nt:
+                        res.nontrivial += 1
+                    res.outcomes.add("UR:%s:%s:%s:%d" % (method, first, case["ep"], min(nexp, 2)))
+                    for (cl, e, o, ft) in vio:
+                        res.violation(cl, case, e, o, ft)
+                    if n == 13:
+                        res.samples.append(case)
+    res.evals += n
+    res.stat("cases_UR", n)
+
+
 def _strip(tree):
     return [[tree.name[i], list(tree.attrs[i]), tree.parent[i]] for i in range(tree.n)]
 
@@ -1521,6 +1848,10 @@ def run_unit(unit, tier):
         run_deep_unit(unit, tier, res)
     elif unit["u"] == "UI":
         run_inter_unit(unit, tier, res)
+    elif unit["u"] == "ULEP":
+        run_ulep_unit(unit, tier, res)
+    elif unit["u"] == "UR":
+        run_reparent_unit(unit, tier, res)
     else:
         run_bulk_unit(unit, tier, res)
     return res
